@@ -52,6 +52,11 @@ def tasks(tier, master):
         for rep in range(1 if tier == "quick" else 3):
             specs.append({"kind": "cycle", "i": n * 10 + rep, "order": n,
                           "seed": core.derive_seed(master, PROPERTY, "cycle", n, rep)})
+    longs = [(31, (1 << 22) + 1), (15, (1 << 22) + 4097)] if tier == "quick" else \
+        [(n, (1 << 22) + 1 + 1000 * j) for j, n in enumerate(ORDERS)] + [(23, 5_000_000), (7, (1 << 23) + 3)]
+    for j, (n, k) in enumerate(longs):
+        specs.append({"kind": "long", "i": 500 + j, "order": n, "k": k,
+                      "seed": core.derive_seed(master, PROPERTY, "long", n, k)})
     chunked = [(23, 8)] if tier == "quick" else [(23, 16), (31, 128)]
     for n, nch in chunked:
         s = core.derive_seed(master, PROPERTY, "chunk", n)
@@ -84,8 +89,10 @@ def _k(rng, order):
     c = rng.random()
     if c < 0.35:
         return rng.choice([1, 2, order - 1, order, order + 1, 3])
-    if c < 0.9:
+    if c < 0.88:
         return rng.randint(1, 4096 if rng.random() < 0.2 else 300)
+    if c < 0.9:
+        return rng.choice([65537, 131075, 40000])
     if order <= 15:
         return rng.choice([(1 << order) - 1, 1 << order])
     return rng.randint(1, 4096)
@@ -114,7 +121,7 @@ def generate(seed, tier):
     for _ in range(rng.randint(8, 45)):
         k = rng.choice(kinds)
         if k == "gen":
-            ops.append({"op": "gen", "k": _k(rng, order)})
+            ops.append({"op": "gen", "k": _k(rng, order), "pos": rng.random() < 0.25})
         elif k == "peek":
             ops.append({"op": "peek", "k": rng.randint(1, 200)})
         elif k == "open":
@@ -229,7 +236,13 @@ class Consumer:
         k = op["k"]
         what = f"gen/order{self.order}"
         first = self.first_call_pending
-        out, warns = self._call(order=self.order, len=k, seed=self._seed_arg(), return_seed=True)
+        if op.get("pos"):     # the documented positional order: PRBS(order, len, seed, return_seed)
+            with seams.warning_tap() as w_:
+                out = self.PRBS(self.order, k, self._seed_arg(), True)
+            warns = [x for x in w_ if issubclass(x.category, UserWarning)]
+            self.rec.probe("positional call form")
+        else:
+            out, warns = self._call(order=self.order, len=k, seed=self._seed_arg(), return_seed=True)
         if not (isinstance(out, tuple) and len(out) == 2):
             raise Violation("C04/state", f"{what}: return_seed=True did not return (sequence, state): {type(out)}", what)
         bits = self._check_bits(out[0], k, what)
@@ -591,6 +604,32 @@ def _chunk(spec, rec):
     rec.sig("chunk", n, c)
 
 
+def _long(spec, rec):
+    """One very long request in a single call (a fast path for long sequences must still hand back the
+    right state), then a short resumed call."""
+    from opticomlib.devices import PRBS
+    n, k = spec["order"], spec["k"]
+    s0 = random.Random(spec["seed"]).randint(1, (1 << n) - 1)
+    ref = RefLFSR(n, s0)
+    out, st = PRBS(n, k, seed=s0, return_seed=True)
+    exp = ref.bits(k)
+    if out.data.shape != (k,) or not np.array_equal(out.data, exp):
+        j = int(np.argmax(out.data[:len(exp)] != exp[:len(out.data)])) if out.data.shape == (k,) else -1
+        raise Violation("C04/stream", f"order {n}: a single {k}-bit call differs from the reference at bit {j}", "long/bits")
+    if int(st) != ref.state:
+        raise Violation("C04/state", f"order {n}: state returned after a single {k}-bit call is {int(st):#x}, reference "
+                                     f"register {ref.state:#x}", "long/state")
+    out2, st2 = PRBS(n, 200, seed=st, return_seed=True)
+    if not np.array_equal(out2.data, ref.bits(200)) or int(st2) != ref.state:
+        raise Violation("C04/stream", f"order {n}: resuming after a single {k}-bit call does not continue the stream",
+                        "long/resume")
+    rec.n_ops += 2
+    rec.ok_ops += 2
+    rec.probe("single call longer than 2^22 bits", 1)
+    rec.log("long", n, k, core.array_digest(out2.data)[:10])
+    rec.sig("long", n, k)
+
+
 def _cycref(spec, rec):
     """Closure / balance / distinctness of the reference period the chunks were compared with."""
     n = spec["order"]
@@ -621,7 +660,7 @@ def execute(spec, rec, known):
             _run(spec, rec)
         else:
             warnings.simplefilter("ignore")
-            {"ident": _ident, "cycle": _cycle, "chunk": _chunk, "cycref": _cycref}[kind](spec, rec)
+            {"ident": _ident, "cycle": _cycle, "chunk": _chunk, "cycref": _cycref, "long": _long}[kind](spec, rec)
     rec.sim_s = clk.covered
 
 
